@@ -648,6 +648,9 @@ func (c *Ctx) rulePanicSources(rr *RuleRep, rs []*ssa.Function) {
 				if isSyntheticSelectPanic(in) {
 					return
 				}
+				if live := feasibleBlocks(f); live != nil && !live[in.Block()] {
+					return // behind an edge no execution takes (a test of constants left by an inlined helper)
+				}
 				n++
 				if why, ok := tableFn[FuncName(f)]; ok {
 					rr.OKt(key+"/panic", in.Pos(), "table: %s", why)
